@@ -10,7 +10,7 @@
 (* replays exactly this space through the real functions.                  *)
 (***************************************************************************)
 EXTENDS CmdSubst, TLC, Json, IOUtils, SequencesExt
-CONSTANTS MaxLen
+CONSTANTS MaxLen, Reduced
 
 InputChoices == { <<>>,
                   <<"a.in">>, <<"src/foo.c.in">>, <<"../s/d.e/noext">>,
@@ -24,7 +24,12 @@ Embedded == { "-i@INPUT@", "@OUTPUT@.o", "p@INPUT0@s", "@INPUT1@.x", "-o@OUTPUT1
               "--dep=@PLAINNAME@.d", "@BASENAME0@.h", "@@INPUT@@", "-D@FOO@INPUT0@PUT1@" }
 Several == { "@INPUT@:@OUTPUT@", "@INPUT0@,@INPUT1@", "@INPUT0@,@INPUT2@", "@OUTPUT0@+@OUTPUT2@", "@INPUT@@OUTPUT@",
              "@OUTDIR@/@BASENAME@.@PLAINNAME1@", "@INPUT@ @INPUT@" }
-Alphabet == Plain \cup Whole \cup Embedded \cup Several
+Full == Plain \cup Whole \cup Embedded \cup Several
+\* one representative per kind of word, for the longer commands (substitution is word-local, law WordLocal)
+Small == { "x", "@FOO@", "@INPUT@", "@OUTPUT@", "@INPUT1@", "@OUTPUT0@", "@OUTPUT2@", "@OUTDIR@", "@PLAINNAME@", "@BASENAME1@",
+           "-i@INPUT@", "@OUTPUT@.o", "@BASENAME@.c", "@INPUT0@,@INPUT2@", "@INPUT@:@OUTPUT@", "-D@FOO@INPUT0@PUT1@" }
+ASSUME Small \subseteq Full
+Alphabet == IF Reduced THEN Small ELSE Full
 
 \* res is the rule book's answer for (ins, outs, cmd); it is a variable only so that TLC computes it once per state
 VARIABLES ins, outs, cmd, res
@@ -40,7 +45,7 @@ ni == Len(ins)
 no == Len(outs)
 
 \* the alphabet stays inside the rule book: no word with overlapping placeholder readings
-AlphabetSpecified == \A w \in Alphabet : ~Overlap(w)
+AlphabetSpecified == \A w \in Full : ~Overlap(w)
 
 \* L1: "error iff one of the documented conditions holds": the scanner-based and the declarative formulation agree
 ErrorIffDocumented == R.ok = ~DeclCmdError(cmd, ni, no)
